@@ -31,6 +31,7 @@ def specs():
             (f'{cls}.empty', cls, 'empty', []),
         ]
     out += [(f'{cls}.extend', cls, 'extend', ['streams']) for cls in ('Inlets', 'Outlets')]
+    out += [(f'{cls}.__setitem__(slice)', cls, 'set_slice', ['slice', 'streams']) for cls in ('Inlets', 'Outlets')]
     out += [('Stream.disconnect_sink', 'StreamLike', 'disconnect_sink', []),
             ('Stream.disconnect_source', 'StreamLike', 'disconnect_source', []),
             ('Stream.disconnect', 'StreamLike', 'disconnect', [])]
@@ -41,6 +42,8 @@ def _verify(item):
     name, cls, meth, params = item
     if meth == 'extend':
         return _verify_extend(item)
+    if meth == 'set_slice':
+        return _verify_set_streams(item)
     import z3
     import thermosteam  # noqa
     nw = sys.modules['thermosteam.network']
@@ -178,7 +181,9 @@ def _verify(item):
 
         def sample(extra):
             m = HN.find_model(plain_wf0 + pre + extra, arg_consts, h0, N=NDOM, timeout_ms=max(20000, TIMEOUT_MS // 2))
-            if m is None: return None
+            if m is None:
+                if HN.find_model.last_status != 'unsat': out['sample_timeouts'] = out.get('sample_timeouts', 0) + 1
+                return None
             vals = {'self': HN._val(m, self_)}
             for k_, c_ in info.items(): vals[k_] = HN._val(m, c_)
             return HN.extract(m, h0, NDOM), vals
@@ -231,8 +236,8 @@ def _verify(item):
             out['obligations'].append(('vacuity: a normal return is reachable', 'sat'))
         else:
             # cover: the precondition is satisfiable together with WF - witnessed by the finite-domain samples below
-            out['cover'] = 'sat' if any('inputs' in c for c in out.get('cross_checks', [])) else 'no finite sample found'
-            if out['cover'] != 'sat':
+            out['cover'] = 'sat' if any('inputs' in c for c in out.get('cross_checks', [])) else ('no finite sample found' if not out.get('sample_timeouts') else 'undecided (finite-model search timed out)')
+            if out['cover'] == 'no finite sample found':
                 out['obligations'].append(('vacuity: WF and the preconditions have a (finite) model', 'sat'))
     except H.Unsupported as e:
         out['unsupported'] = str(e)
@@ -417,7 +422,9 @@ def _verify_extend(item):
         for extra_ in variants:
             try:
                 mdl = HN.find_model(plain_wf0 + pre + small + extra_, [S], h0, N=NDOM, timeout_ms=max(20000, TIMEOUT_MS // 2))
-                if mdl is None: continue
+                if mdl is None:
+                    if HN.find_model.last_status != 'unsat': out['sample_timeouts'] = out.get('sample_timeouts', 0) + 1
+                    continue
                 objs = HN.extract(mdl, h0, NDOM)
                 ids = [HN._val(mdl, a(i)) for i in range(HN._val(mdl, n))]
                 nat = native(objs, HN._val(mdl, S), ids)
@@ -451,7 +458,269 @@ def _verify_extend(item):
             except Exception as e:
                 out.setdefault('replay_errors', []).append(f'{nm}: {type(e).__name__}: {e}')
         out['t_sample'] = round(time.time() - t_s, 1)
-        if n_ret and not any('inputs' in c for c in out['cross_checks']):
+        if n_ret and not any('inputs' in c for c in out['cross_checks']) and not out.get('sample_timeouts'):
+            out['obligations'].append(('vacuity: WF and the preconditions have a (finite) model', 'sat'))
+    except H.Unsupported as e:
+        out['unsupported'] = str(e)
+    except Exception as e:
+        out['error'] = f'{type(e).__name__}: {e}\n{traceback.format_exc()[-1200:]}'
+    out['wall_s'] = time.time() - t0
+    return out
+
+
+# ----------------------------------------------------------------------------- slice assignment: seq[a:b] = streams
+
+def _verify_set_streams(item):
+    """`seq[a:b] = streams` (StreamSequence.__setitem__ with a slice -> _set_streams): the loop that undocks the streams leaving
+    is summarised pointwise, the loop that re-docks every stream of the new list (it removes a stream from the port list of
+    the unit it was docked at before) is verified with an inductive invariant: WF relaxed at this list's positions >= j.
+    Heap, lists and the sequence have any size; nothing is unrolled."""
+    name, cls, meth, params = item
+    import z3
+    import thermosteam  # noqa
+    nw = sys.modules['thermosteam.network']
+    from engine.vcg import heap as H
+    from engine.vcg import heap_native as HN
+    t0 = time.time()
+    out = {'name': name, 'obligations': [], 'paths': 0, 'unsupported': None, 'functions': [], 'solver_s': 0.0}
+    try:
+        classes = {'Inlets': nw.AbstractInlets, 'Outlets': nw.AbstractOutlets, 'StreamLike': nw.AbstractStream}
+        sel = z3.Select
+        h0 = H.Heap('0')
+        S = z3.Int('self')
+        n = z3.Int('n_streams'); arr = z3.Const('streams', z3.ArraySort(z3.IntSort(), z3.IntSort()))
+        sa, sb = z3.Ints('slice_start slice_stop'); sb_none = z3.Bool('slice_stop_is_None')
+        m, m2, i_ = z3.Ints('m m2 i')
+        side = 'sink' if cls == 'Inlets' else 'source'
+        other_side = 'source' if cls == 'Inlets' else 'sink'
+        KIND = H.INLETS if cls == 'Inlets' else H.OUTLETS
+        owner = sel(getattr(h0, side), S)
+        L0 = sel(h0.llen, S)
+        slc = H.SliceV(sa, sb, sb_none)
+        lo0, hi0 = slc.bounds(L0)
+        a = lambda k_: sel(arr, k_)
+        kept = lambda k_: z3.Or(z3.And(k_ >= 0, k_ < lo0), z3.And(k_ >= hi0, k_ < L0))
+        # ghost: the position of a reference in `streams` (exists because the sequence has no repeated element; it turns
+        # "x is (not) one of the new streams" into a quantifier-free test)
+        idx_new = z3.Function('idx_new', z3.IntSort(), z3.IntSort())
+        isnew = lambda x: z3.And(idx_new(x) >= 0, idx_new(x) < n, a(idx_new(x)) == x)
+
+        def elem_ok(h, k_):
+            e = a(k_)
+            return z3.And(sel(h.alloc, e), e != 0, z3.Or(sel(h.kind, e) == H.STREAM, sel(h.kind, e) == H.MISSING),
+                          z3.Implies(sel(h.kind, e) == H.MISSING, sel(getattr(h, other_side), e) == 0))
+
+        pre = [sel(h0.alloc, S), S != 0, sel(h0.kind, S) == KIND, n >= 0, sa >= 0, sb >= 0,
+               z3.ForAll([m], z3.Implies(z3.And(m >= 0, m < n), elem_ok(h0, m))),
+               z3.ForAll([m, m2], z3.Implies(z3.And(m >= 0, m < n, m2 >= 0, m2 < n, m != m2), a(m) != a(m2))),
+               # the quantifier of the property: a stream assigned to a port is not already in the (kept part of the) same list,
+               # a slice does not supply more streams than a fixed-size list holds
+               z3.ForAll([m], z3.Implies(z3.And(m >= 0, m < n), idx_new(a(m)) == m)),
+               z3.ForAll([i_], z3.Implies(kept(i_), z3.Not(isnew(h0.el(S, i_))))),
+               z3.Implies(sel(h0.fixed, S), L0 - (hi0 - lo0) + n <= sel(h0.fsize, S))]
+        posIn = z3.Function('posIn', z3.IntSort(), z3.IntSort()); posOut = z3.Function('posOut', z3.IntSort(), z3.IntSort())
+        hyps = [c for _, c in H.WF(h0, pos=(posIn, posOut))]
+        shift = n - (hi0 - lo0)
+
+        def mk_cands(pI, pO, h, extra=()):
+            ext = [z3.IntVal(0), sel(h.llen, S)] + list(extra)
+            def cands(s_, inlet_side):
+                w_ = (pI if inlet_side else pO)(s_)
+                return [w_, w_ + 1, w_ - 1, w_ + shift] + ext
+            return cands
+
+        class LC:
+            entry = None; seq = None; heaps = []
+            @staticmethod
+            def enter(hE, it):
+                LC.entry, LC.seq = hE, it
+            @staticmethod
+            def parts(j, h):
+                hE, c, N = LC.entry, LC.seq.arr, LC.seq.n
+                x = z3.Int('x')
+                return [
+                    ('the port list object is unchanged (same unit, same size policy)',
+                     z3.And(sel(h.alloc, S), sel(h.kind, S) == KIND, sel(getattr(h, side), S) == owner,
+                            sel(h.fixed, S) == sel(h0.fixed, S), sel(h.fsize, S) == sel(h0.fsize, S))),
+                    ('the body does not change the list that is being traversed',
+                     z3.And(sel(h.llen, S) == N, z3.ForAll([m], z3.Implies(z3.And(m >= 0, m < N), h.el(S, m) == sel(c, m))))),
+                    ('objects that existed before the call still exist, with their class',
+                     z3.ForAll([x], z3.Implies(sel(h0.alloc, x), z3.And(sel(h.alloc, x), sel(h.kind, x) == sel(h0.kind, x))))),
+                    ('streams that left the list stay undocked',
+                     z3.ForAll([i_], z3.Implies(z3.And(i_ >= lo0, i_ < hi0, z3.Not(isnew(h0.el(S, i_)))),
+                                                sel(getattr(h, side), h0.el(S, i_)) == 0))),
+                ]
+            @staticmethod
+            def hyp(j, h):
+                k_ = next(H._cnt)
+                pI = z3.Function(f'posIn!{k_}', z3.IntSort(), z3.IntSort()); pO = z3.Function(f'posOut!{k_}', z3.IntSort(), z3.IntSort())
+                forms = [c for _, c in H.WF(h, pos=(pI, pO), relax=(S, j))] + [c for _, c in LC.parts(j, h)]
+                LC.heaps.append((h, j))
+                return forms, mk_cands(pI, pO, h, extra=[j])
+            @staticmethod
+            def goal(j, h, cands):
+                return [(f'WF (relaxed at the positions of this list not yet re-docked): {nm}', c) for nm, c in H.WF(h, cands=cands, relax=(S, j))] + LC.parts(j, h)
+
+        ex = H.Exec(classes, nw.__dict__)
+        ex.side_obligations = []
+        ex.loop_contract = LC
+        ex.cands_now = mk_cands(posIn, posOut, h0)
+        t_e = time.time()
+        outs = ex.run(cls, '__setitem__', H.Ref(S, cls), [slc, H.ExtSeq(n, arr)], h0, pre, hyps)
+        out['t_explore'] = round(time.time() - t_e, 1)
+        out['paths'] = len(outs)
+        out['functions'] = sorted(ex.functions_read)
+        failing = []
+
+        def _prove(hyp, goal):
+            verdict = 'unknown'
+            for cfg in ('ematching', 'default'):
+                s_ = z3.Solver()
+                if cfg == 'ematching':
+                    s_.set('auto_config', False); s_.set('smt.mbqi', False); s_.set('timeout', max(5000, TIMEOUT_MS // 3))
+                else:
+                    s_.set('timeout', TIMEOUT_MS)
+                for x in hyp: s_.add(x)
+                s_.add(z3.Not(goal))
+                t1 = time.time(); r = s_.check(); out['solver_s'] += time.time() - t1
+                if r == z3.unsat: return 'unsat'
+                if r == z3.sat and cfg == 'default': verdict = 'sat'
+            return verdict
+
+        def prove(nm, pc, goal):
+            t1 = time.time()
+            v_ = _prove(hyps + pc, goal)
+            out.setdefault('slowest', []).append((round(time.time() - t1, 2), nm))
+            if v_ != 'unsat': failing.append((nm, list(pc), goal))
+            out['obligations'].append((nm, v_))
+
+        n_ret = n_iter = 0
+        for n_out, (kind, pc, h1, v) in enumerate(outs):
+            if kind == 'abort':
+                prove(f'path {n_out}: cut path ({v}) is infeasible', pc, z3.BoolVal(False)); continue
+            if kind == 'raise':
+                prove(f'path {n_out}: {v} is never raised', pc, z3.BoolVal(False)); continue
+            if kind == 'iteration':
+                n_iter += 1; continue
+            n_ret += 1
+            cands = ex.out_cands[n_out]
+            for cname, c in H.WF(h1, cands=cands):
+                prove(f'path {n_out}: WF preserved: {cname}', pc, c)
+            own = owner
+            listed = z3.ForAll([m], z3.Implies(z3.And(m >= 0, m < n), z3.And(lo0 + m >= 0, lo0 + m < sel(h1.llen, S), h1.el(S, lo0 + m) == a(m))))
+            prove(f'path {n_out}: every stream of the sequence is listed in the port list afterwards', pc, listed)
+            # cut: the clause above (an obligation of its own) is used as a lemma, it names the positions the solver must look at
+            prove(f"path {n_out}: every stream of the sequence has the owning unit as its {side}", pc + [listed],
+                  z3.ForAll([m], z3.Implies(z3.And(m >= 0, m < n), sel(getattr(h1, side), a(m)) == own)))
+            prove(f'path {n_out}: streams outside the slice keep their order around the new ones', pc,
+                  z3.ForAll([i_], z3.And(z3.Implies(z3.And(i_ >= 0, i_ < lo0), h1.el(S, i_) == h0.el(S, i_)),
+                                         z3.Implies(z3.And(i_ >= hi0, i_ < L0), h1.el(S, i_ + shift) == h0.el(S, i_)))))
+            prove(f"path {n_out}: a stream that left the list has no {side} afterwards", pc,
+                  z3.ForAll([i_], z3.Implies(z3.And(i_ >= lo0, i_ < hi0, z3.Not(isnew(h0.el(S, i_)))),
+                                             sel(getattr(h1, side), h0.el(S, i_)) == 0)))
+            prove(f'path {n_out}: a list of fixed size has its size afterwards', pc,
+                  z3.Implies(sel(h0.fixed, S), sel(h1.llen, S) == sel(h0.fsize, S)))
+        for oname, pc, cond in ex.side_obligations:
+            prove(f'loop: {oname}' if oname.startswith('loop invariant') else f'internal: {oname}', pc, cond)
+        if n_ret == 0: out['obligations'].append(('vacuity: a normal return is reachable', 'sat'))
+        if n_iter == 0: out['obligations'].append(('vacuity: the loop body is reachable', 'sat'))
+        # vacuity guard: the hypotheses of every iteration path and of the exit paths (havoc'ed heap + invariant + path condition)
+        # must not be contradictory - `False` must not be provable from them
+        def consistent(pc):
+            s_ = z3.Solver(); s_.set('auto_config', False); s_.set('smt.mbqi', False); s_.set('timeout', 5000)
+            for x in hyps + pc: s_.add(x)
+            return s_.check() != z3.unsat
+        for n_out, (kind, pc, h1, v) in enumerate(outs):
+            if kind in ('iteration', 'return') and not consistent(pc):
+                out['obligations'].append((f'vacuity: the hypotheses of path {n_out} ({kind}) are consistent', 'sat'))
+        out['t_prove'] = round(out['solver_s'], 1)
+        if os.environ.get('VERIF_C18_DEBUG'):
+            out['_debug'] = {'failing': failing, 'hyps': hyps, 'heaps': LC.heaps, 'h0': h0, 'S': S}
+            return out
+
+        # ---- finite-domain models -> real objects
+        NDOM = 8
+        t_s = time.time()
+        plain_wf0 = [c for _, c in H.WF(h0)]
+        small = [n <= 3, sa <= 4, sb <= 4] + [z3.And(a(k_) >= 0, a(k_) < NDOM) for k_ in range(3)]
+
+        def native(objs, self_id, stream_ids, a_v, b_v, b_none_v, loose=False):
+            real = HN.build(objs)
+            uni0 = HN.reachable(list(real.values()))
+            res = {'wf_pre': HN.wf_native(uni0), 'exception': None}
+            seq = real[self_id]
+            before = list(seq._streams)
+            new = [real[k_] for k_ in stream_ids]
+            try:
+                seq[a_v:(None if b_none_v else b_v)] = new
+            except Exception as e:
+                res['exception'] = type(e).__name__
+            res['wf_post'] = HN.wf_native(HN.reachable(list(real.values()) + before))
+            eff = []
+            if res['exception'] is None:
+                own = getattr(seq, '_' + side)
+                for s_ in new:
+                    if not any(s_ is t for t in seq._streams): eff.append('every stream of the sequence is listed in the port list afterwards')
+                    if getattr(s_, '_' + side) is not own: eff.append(f'every stream of the sequence has the owning unit as its {side}')
+                for s_ in before:
+                    if not any(s_ is t for t in seq._streams) and getattr(s_, '_' + side) is not None:
+                        eff.append(f'a stream that left the list has no {side} afterwards')
+                if seq._fixed_size and len(seq._streams) != seq._size: eff.append('a list of fixed size has its size afterwards')
+            res['effects_failed'] = sorted(set(eff))
+            return res
+
+        def run_model(mdl, h, j_from=0):
+            objs = HN.extract(mdl, h, NDOM)
+            nv = HN._val(mdl, n)
+            ids = [HN._val(mdl, a(k_)) for k_ in range(nv)]
+            inputs = {'self': HN._val(mdl, S), 'streams': ids, 'slice': [HN._val(mdl, sa), None if HN._val(mdl, sb_none) else HN._val(mdl, sb)]}
+            nat = native(objs, inputs['self'], ids, inputs['slice'][0], inputs['slice'][1], inputs['slice'][1] is None)
+            return objs, inputs, nat
+
+        out['cross_checks'] = []
+        all_proved = all(v == 'unsat' for _, v in out['obligations'])
+        x_ = z3.Int('x!v')
+        variants = [[n == 1, z3.Not(sel(h0.fixed, S)), sel(getattr(h0, side), a(0)) != 0, sel(getattr(h0, side), a(0)) != owner],
+                    [n == 0, L0 >= 2, sel(h0.fixed, S), hi0 - lo0 >= 2],
+                    [n == 1, L0 >= 2, hi0 - lo0 == 1, sel(h0.fixed, S)],
+                    [n == 1, sel(h0.kind, a(0)) == H.MISSING, sel(getattr(h0, side), a(0)) != 0, sel(getattr(h0, side), a(0)) != owner]]
+        if os.environ.get('VERIF_TIER', 'quick') != 'thorough': variants = variants[:2]
+        for extra_ in variants:
+            try:
+                mdl = HN.find_model(plain_wf0 + pre + small + extra_, [S], h0, N=NDOM, timeout_ms=max(20000, TIMEOUT_MS // 2))
+                if mdl is None:
+                    if HN.find_model.last_status != 'unsat': out['sample_timeouts'] = out.get('sample_timeouts', 0) + 1
+                    continue
+                objs, inputs, nat = run_model(mdl, h0)
+                out['cross_checks'].append({'inputs': inputs, 'objects': len(objs), **nat})
+                if not nat['wf_pre'] and (nat['wf_post'] or nat['effects_failed'] or nat['exception'] is not None):
+                    if all_proved:
+                        out['obligations'].append(('cross-check: native run of a sampled well-formed pre-state keeps WF', 'sat'))
+                    out['replays'] = out.get('replays', []) + [{'clause': 'cross-check', 'heap': objs, 'inputs': inputs, 'native': nat}]
+                    break
+            except Exception as e:
+                out['cross_checks'].append({'error': f'{type(e).__name__}: {e}'})
+        # failing obligations: a finite model of the PRE-state (h0) that satisfies the path up to the loop cannot be read off an
+        # iteration VC (its heap is havoc'ed and only relaxed-WF), so failing input = a well-formed pre-state within the
+        # preconditions on which the REAL slice assignment breaks the contract, searched over the finite domain with the sampled variants
+        if failing and not out.get('replays'):
+            more = [[n == 1, sel(getattr(h0, side), a(0)) != 0, sel(getattr(h0, side), a(0)) != owner],
+                    [n == 1, hi0 - lo0 >= 1], [n == 2], [n == 0, hi0 - lo0 >= 1], [n == 1, sel(h0.fixed, S)], [n == 0, sel(h0.fixed, S), hi0 - lo0 >= 1],
+                    [n == 1, sel(h0.kind, a(0)) == H.MISSING], [n == 2, sel(getattr(h0, side), a(1)) != 0, sel(getattr(h0, side), a(1)) != owner, L0 >= 1]]
+            for extra_ in more:
+                try:
+                    mdl = HN.find_model(plain_wf0 + pre + small + extra_, [S], h0, N=NDOM, timeout_ms=max(20000, TIMEOUT_MS // 2))
+                    if mdl is None: continue
+                    objs, inputs, nat = run_model(mdl, h0)
+                    if not nat['wf_pre'] and (nat['wf_post'] or nat['effects_failed'] or nat['exception'] is not None):
+                        out['replays'] = [{'clause': failing[0][0], 'heap': objs, 'inputs': inputs, 'native': nat}]
+                        break
+                except Exception as e:
+                    out.setdefault('replay_errors', []).append(f'{type(e).__name__}: {e}')
+            if not out.get('replays'):
+                out.setdefault('replay_errors', []).append('no sampled well-formed pre-state breaks the contract natively')
+        out['t_sample'] = round(time.time() - t_s, 1)
+        if n_ret and not any('inputs' in c for c in out['cross_checks']) and not out.get('sample_timeouts'):
             out['obligations'].append(('vacuity: WF and the preconditions have a (finite) model', 'sat'))
     except H.Unsupported as e:
         out['unsupported'] = str(e)
@@ -543,7 +812,13 @@ def run(prop, tier, jobs, seed):
         if r.get('error'):
             print(f"ENGINE-ERROR C18/U/{r['name']}: {r['error']}"); status = max(status, 3); continue
         if r['unsupported']:
-            unsupported.append(f"{r['name']}: {r['unsupported']}"); continue
+            unsupported.append(f"{r['name']}: {r['unsupported']}")
+            if any(k.startswith(f"C18/U/{r['name']}/") for k in baseline):
+                # proved on the baseline tree, outside the executor's subset on this tree: never a silent pass (the bounded groups
+                # of C18 run the same operations natively; if they find nothing the check ends as an engine error)
+                print(f"ENGINE-ERROR C18/U/{r['name']}: proved on the baseline tree but no longer within the heap executor's subset ({r['unsupported']})")
+                status = max(status, 3) if status != 1 else 1
+            continue
         read |= set(r['functions'])
         functions.append({'name': 'thermosteam.network:' + r['name'], 'mode': 'U', 'paths': r['paths'], 'inlined': r['functions']})
         for n, v in r['obligations']:
